@@ -37,7 +37,9 @@ PF = gen.Profile(
     weeks=(2, 4),
     max_slots=8,
     milestones=True,
+    local_ids=True,
 )
+PF_SC = replace(PF, scenarios=True, depth=4, max_tasks=9, unsched=False, alap_project=False)
 PF_SUB = replace(PF, subslot=True, odd_eff=True, resolutions=[15, 20, 60])
 
 
@@ -104,6 +106,13 @@ def eval_project(spec):
         r.classes.append("exc:" + obs.exc_bucket)
         return r
     vs, nt, classes = rollup_violations(spec, obs)
+    for k in range(1, len(obs.scen)):  # the roll-up rule holds in every scenario, from that scenario's own dates
+        vk, _nt, _c = rollup_violations(spec, obs, k)
+        for v in vk:
+            v.locus = f"{obs.scen_ids[k] if k < len(obs.scen_ids) else k}:{v.locus}"
+        vs.extend(vk)
+    if len(obs.scen) > 1:
+        classes.append("scenarios")
     r.violations = vs
     r.nontrivial = nt
     r.classes.extend(classes)
@@ -112,11 +121,19 @@ def eval_project(spec):
     return r
 
 
+def _scenario_cases():
+    from . import C16
+
+    return C16.cases(PF_SC)
+
+
 def campaigns(tier):
     q = tier == "quick"
     return [
         Campaign("trees", "hyp", evaluate=eval_project, strategy=lambda: gen.project_specs(PF), n=4000 if q else 40000, floor_nontrivial=0.2,
                  describe="deep trees, unschedulable leaves, dated containers, containers with work attributes, groups"),
+        Campaign("trees_scenarios", "hyp", evaluate=eval_project, strategy=_scenario_cases, n=500 if q else 8000,
+                 describe="trees with 1-4 scenarios and scenario-specific efforts / dates: the roll-up is checked in every scenario"),
         Campaign("trees_subslot", "hyp", evaluate=eval_project, strategy=lambda: gen.project_specs(PF_SUB), n=1000 if q else 10000,
                  describe="the same with sub-slot efforts"),
     ]
